@@ -24,7 +24,7 @@ SPEC = {
                   "(_of_flags): worker_serve has returned by trigger + graceful_timeout + shutdown_timeout and the clock cannot pass "
                   "that instant while it has not (bounded); at either deadline it has an action to take, whatever is still open, HTTP/2 "
                   "streams in progress on asyncio included (deadline_forces_progress for both current runtimes, _of_flags wherever a "
-                  "cancelled handler always finishes; F32 is fixed by 1b98b61: history witnesses h2_cancel_deadlock_before_fix, "
+                  "cancelled handler always finishes; F32 is fixed by 5d167c5: history witnesses h2_cancel_deadlock_before_fix, "
                   "deadline_forces_progress_failed_before_fix about Runtime.asyncioBeforeF32); once terminated is set the listeners are closed, no connection with an "
                   "armed idle timer is left, nothing was accepted and no application instance was started afterwards (orderly); "
                   "connection attempts and request heads are not enabled, a new HTTP/2 stream is refused without an application "
@@ -420,7 +420,7 @@ def run(ctx: Ctx) -> None:
     ctx.exhaustive = False
     evaluate(ctx, scs)
     ctx.notes.append("history witnesses replayed on the implementation, all pass on the code now: h2_cancel_deadlock_before_fix = "
-                     "open_h2_long/asyncio (F32, fixed by 1b98b61), f18_run_before_fix = hang_h1/asyncio, idle_closed_failed_before_fix = "
+                     "open_h2_long/asyncio (F32, fixed by 5d167c5), f18_run_before_fix = hang_h1/asyncio, idle_closed_failed_before_fix = "
                      "fresh_h2")
 
 
